@@ -665,24 +665,28 @@ fn check_type(out: &mut Vec<Viol>, st: &ResolvedSemanticState, ix: &FileIndex, d
         let mut max_align: u128 = 1;
         let mut pyx_off: u128 = 0;
         let mut decidable = true;
+        let mut misplaced = false;
+        let mut wrong_size = false;
         for r in &td.regions {
             let (Some((rsz, ral)), Some(psz)) = (rust_size_align(st, &r.type_ref, ptr), pyxis_size(st, &r.type_ref, ptr)) else { decidable = false; break };
             let al = if td.packed { 1 } else { ral };
             if al == 0 { decidable = false; break; }
             off = (off + al - 1) / al * al;
-            if off != pyx_off {
+            if off != pyx_off && !misplaced {
+                misplaced = true;
                 v(out, &["C01"], format!("{name}.{}: rustc places the emitted field at offset {off}, pyxis resolved offset {pyx_off}", r.name.clone().unwrap_or_default()));
-                break;
             }
-            if rsz != psz {
+            if rsz != psz && !wrong_size {
+                wrong_size = true;
                 v(out, &["C01", "C02"], format!("{name}.{}: the emitted field type `{}` has size {rsz} in Rust, pyxis resolved size {psz}", r.name.clone().unwrap_or_default(), render_type(&r.type_ref).unwrap_or_default()));
-                break;
             }
+            // rustc's own running offset and pyxis' running offset are followed separately, so that the compiled size
+            // is still compared with the resolved one after a misplaced field (C02)
             off += rsz;
             pyx_off += psz;
             max_align = max_align.max(al);
         }
-        if decidable && !out.iter().any(|x| x.what.starts_with(&format!("{name}.")) && x.what.contains("rustc places") || x.what.contains("has size")) {
+        if decidable && !wrong_size {
             let al = if td.packed { 1 } else { max_align.max(isr.alignment as u128) };
             let total = (off + al - 1) / al * al;
             if total != isr.size as u128 {
